@@ -6,7 +6,7 @@ LEVEL = "exploration"     # cases are drawn from the specification under the TLC
 
 
 def run(ctx):
-    n = 6000 if ctx.tier == "thorough" else 1500
+    n = 40000 if ctx.tier == "thorough" else 1500
     cases, res = rel.run_family(ctx, "single", n, "C01", "query")
     rel.judge(ctx, cases, res, "C01", "select", modes=("o",))
     ctx.coverage["exhaustive"] = False
